@@ -26,7 +26,7 @@ func gridC08(res *vutil.Result, tier string, shard, nshards int) {
 		rest     int32
 		note, nn int
 	}
-	axes := []axisT{{"ABS_HAT0X", 1, -1, 0, 64, 60}, {"ABS_RY", 127, -128, 0, 0, 127}}
+	axes := []axisT{{"ABS_HAT0X", 1, -1, 0, 64, 60}, {"ABS_RY", 127, -128, 0, 0, 127}, {"ABS_RX", 127, -128, 0, 127, 0}}
 	job := 0
 	for _, walk := range []string{"octave", "semitone", "both"} {
 		for _, dir := range []int{1, -1} {
@@ -40,6 +40,7 @@ func gridC08(res *vutil.Result, tier string, shard, nshards int) {
 				Axes: []AxisDesc{
 					{Name: "ABS_HAT0X", Type: "key", Note: 64, NoteNeg: 60, Min: -1, Max: 1, Deadzone: 0, Pos: []int32{-1, 0, 1}},
 					{Name: "ABS_RY", Type: "key", Note: 0, NoteNeg: 127, Off: 2, OffNeg: 15, Min: -128, Max: 127, Deadzone: 0, Pos: []int32{-128, 0, 127}},
+					{Name: "ABS_RX", Type: "key", Note: 127, NoteNeg: 0, Min: -128, Max: 127, Deadzone: 0, Pos: []int32{-128, 0, 127}}, // note 0 is a note, also as the negative one
 				}}}
 			acts(d, OU, "octave_up", OD, "octave_down", SU, "semitone_up", SD, "semitone_down")
 			g := &gridDev{d: d, out: make(chan midi.Event, 4096), idx: map[string]int{}}
